@@ -224,8 +224,8 @@ pub fn run(ctx: &Ctx, rep: &mut Report) {
     let ni = js.iter().filter(|j| matches!(j.ty, Ty::Int(_))).count().max(1) as u64;
     let fj: Vec<Job> = js.iter().filter(|j| matches!(j.ty, Ty::Float(_))).cloned().collect();
     let ij: Vec<Job> = js.iter().filter(|j| matches!(j.ty, Ty::Int(_))).cloned().collect();
-    run_prop_jobs(rep, ctx, "floats:write-then-parse", &fj, ctx.n((2_500_000 / nf).max(1500), (400_000_000 / nf).max(100_000)), case_strategy, case_json, check);
-    run_prop_jobs(rep, ctx, "integers:write-then-parse", &ij, ctx.n((1_500_000 / ni).max(1000), (200_000_000 / ni).max(50_000)), case_strategy, case_json, check);
+    run_prop_jobs(rep, ctx, "floats:write-then-parse", &fj, ctx.n((2_500_000 / nf).max(1500), (50_000_000 / nf).max(20_000)), case_strategy, case_json, check);
+    run_prop_jobs(rep, ctx, "integers:write-then-parse", &ij, ctx.n((1_500_000 / ni).max(1000), (30_000_000 / ni).max(10_000)), case_strategy, case_json, check);
     // formats with zero accepted round trips would show up as violations; list the group counts
     let _ = pool();
 }
